@@ -126,7 +126,8 @@ func (n *TNode) Sexp() string {
 	return tag("other", atom(n.Nm))
 }
 
-var tyPkgs = []string{"k8s.io/api/core/v1", "k8s.io/apimachinery/pkg/apis/meta/v1", "a/b", "x/b", "ex.test/my-pkg/proto", "ex.test/a.b/c_d", "single", "a/go", "pkg/server/frobbing/proto", "local/out", "other/out"}
+var tyPkgs = []string{"k8s.io/api/core/v1", "k8s.io/apimachinery/pkg/apis/meta/v1", "a/b", "x/b", "ex.test/my-pkg/proto", "ex.test/a.b/c_d", "single", "a/go", "pkg/server/frobbing/proto", "local/out", "other/out",
+	"k8s.io/api/core-v1", "ex.test/pro.to", "ex.test/pro.to/sub"}
 var tyNames = []string{"Foo", "Bar", "foo", "T", "Pod", "ObjectMeta", "x1", "Type_A", "S"}
 
 type TyOpts struct {
